@@ -454,6 +454,27 @@ def run_remote(ctx, idx, rng, tmp):
         srv.close()
 
 
+def _rewrite_basin_type(path, btype):
+    import hashlib
+    import json
+    import h5py
+    with h5py.File(path, "a") as h5:
+        grp = h5["basins"]
+        for key in list(grp):
+            lines = [ln.decode("utf-8") if isinstance(ln, bytes) else str(ln) for ln in grp[key][:]]
+            bdict = json.loads(" ".join(lines))
+            bdict["type"] = btype
+            if btype == "remote":
+                bdict["urls"] = bdict.pop("paths")
+            data = json.dumps(bdict, indent=2)
+            del grp[key]
+            new_lines = data.split("\n")
+            width = max(len(ln.encode("utf-8")) for ln in new_lines)
+            grp.create_dataset(hashlib.md5(data.encode("utf-8")).hexdigest(),
+                               data=np.array([ln.encode("utf-8") for ln in new_lines],
+                                             dtype=f"S{width}"))
+
+
 def run_replace(ctx, idx, rng, tmp):
     """The file at a basin location is replaced between two openings of referrers in the same
     process: whether the basin belongs to the referrer's measurement is a property of the file
@@ -469,6 +490,14 @@ def run_replace(ctx, idx, rng, tmp):
     edge = {"src": 0, "dst": 1, "n": 0, "mapped": mapped, "dangling": False,
             "relative": bool(rng.random() < 0.5)}
     write_file(ref, 0, n, id_ref, [edge], paths, rng)
+    # the definition may come from other software and declare another basin *type* for the
+    # same hdf5 file (remote with "urls", internal with "paths"): whatever route dclab takes
+    # to it, a file of another measurement must not be served
+    btype = "file"
+    if rng.random() < 0.45:
+        btype = str(rng.choice(["remote", "internal"]))
+        _rewrite_basin_type(ref, btype)
+        ctx.count(f"basin_definitions_with_type[{btype}]_format[hdf5]")
     seq = [str(v) for v in rng.choice(["idA", "idB", "idA-sub", "none"], int(rng.integers(2, 5)))]
     if len(set(seq)) == 1:
         seq[-1] = "idB" if seq[0] != "idB" else "idA"
@@ -490,11 +519,32 @@ def run_replace(ctx, idx, rng, tmp):
             ds = dclab.new_dataset(ref) if how == 0 else dclab.rtdc_dataset.fmt_hdf5.RTDC_HDF5(ref)
             try:
                 got = "userdef1" in ds
-                val = np.asarray(ds["userdef1"][:]) if got else None
+                val = None
+                if got:
+                    try:
+                        val = np.asarray(ds["userdef1"][:])
+                    except Exception:
+                        if btype == "file":
+                            raise
+                        val = None      # refused on access
             finally:
                 ds.close()
-        case = {"kind": "replace", "referrer_id": id_ref, "mapped": mapped,
+        case = {"kind": "replace", "referrer_id": id_ref, "mapped": mapped, "basin_type": btype,
                 "location_history": hist, "relative_location": edge["relative"]}
+        if btype != "file":
+            # whether and when such a definition is followed is not stated; judged is only
+            # that data of a non-matching file are never *served*
+            served = val is not None
+            ctx.check("c14.offered_iff_model", exp or not served,
+                      lambda: dict(case, served=served, expected=exp, data=val),
+                      message=f"basin definition of type {btype!r} (format hdf5): data of a "
+                              f"file with identifier {ident!r} served to referrer {id_ref!r}")
+            if served and exp:
+                ctx.check("c14.data_provenance",
+                          np.array_equal(val, 1000.0 + 100 * step + np.arange(n)),
+                          lambda: dict(case, got=val),
+                          message="basin data are not those of the file now at the location")
+            continue
         ctx.check("c14.offered_iff_model", got == exp,
                   lambda: dict(case, offered=got, expected=exp),
                   message=f"file at the basin location replaced (now {ident!r}, referrer "
